@@ -36,6 +36,12 @@ func GenDaemon(prop string, seed uint64, tier string) *DaemonScenario {
 		}
 		return sc
 	}
+	if prop == "C01" && seed%4 == 3 {
+		// the store of a follower and of a node repairing its chain is filled by peers alone, some of them lying
+		sc := GenDaemon("C10", seed, tier)
+		sc.Prop = "C01"
+		return sc
+	}
 	r := NewRng(seed ^ 0xdae401)
 	sc := &DaemonScenario{Engine: "daemon", Prop: prop, Seed: seed}
 	sc.N = r.Range(3, 5)
